@@ -20,8 +20,10 @@ RULE = (
     "slid along a random direction to a signed offset log-uniform in [1e-3, 10] around first contact; strata: "
     "generic 3D, planar boxes (equal z / z near the height sum), axis-aligned, equal z, nested in a cavity, "
     "swallowed inside the other's material, far apart; object-in-container cases with convex / non-convex mesh "
-    "containers, polygon footprints with holes, and intersection / difference regions, slid to a signed offset "
-    "around the containment boundary.  A case is non-trivial when the oracle answer is definite and the "
+    "containers (centred and centerMesh=False), polygon footprints with holes (incl. non-convex objects wrapped around a hole), "
+    "flat PolygonalRegions, and intersection / difference regions, slid to a signed offset around the containment "
+    "boundary; objects are fixed, position-sampled, dimension-sampled or sampled through an unrelated property; box and "
+    "cylinder shapes also with initial_rotation.  A case is non-trivial when the oracle answer is definite and the "
     "bounding spheres of the two solids overlap; distinct = distinct (stratum, shapes, poses) tuples."
 )
 ASSUMPTIONS = [
@@ -61,6 +63,11 @@ MIN_COUNTERS = {
         "exit.Object.minimumDistanceTo.planar_2d": 10,
         "exit_objreg.Object.intersects.planar_vs_polygonalregion": 4,
         "exit.Object.minimumDistanceTo.general": 200,
+        "exit.MeshVolumeRegion.containsObject.p3_centre_outside": 10,
+        "exit.PolygonalFootprintRegion.containsObject.hull_inside": 5,
+        "occupied_space_checks": 3000,
+        "object_region_intersects": 200,
+        "direct_region_reevaluations": 300,
     },
 }
 MIN_COUNTERS["thorough"] = {k: v * 8 for k, v in MIN_COUNTERS["quick"].items()}
@@ -648,7 +655,7 @@ def classify(kind, detail):
         # Confirmed when FCL run on the oracle's own geometry reports the same number.
         if (not A.spec.convex) or (not B.spec.convex):
             ref = _fcl_reference_distance(A, B)
-            if abs(ref - detail["d"]) <= 1e-7 * max(1.0, abs(ref)):
+            if abs(ref - detail["d"]) <= 1e-6 + 1e-3 * abs(ref):  # (FCL's GJK answers move by ~1e-5 relative with vertex order)
                 return "mindist.surface-distance-when-enclosed"
         return None
     if kind == "mindist_bracket":
@@ -657,7 +664,7 @@ def classify(kind, detail):
         # over-estimate).  Confirmed when FCL run on the oracle's own geometry reports the same number.
         if (A.spec.convex or B.spec.convex) and detail["over"] and detail["general"]:
             ref = _fcl_reference_distance(A, B)
-            if abs(ref - detail["d"]) <= 1e-7 * max(1.0, abs(ref)):
+            if abs(ref - detail["d"]) <= 1e-6 + 1e-3 * abs(ref):  # (FCL's GJK answers move by ~1e-5 relative with vertex order)
                 return "mindist.fcl-gjk-overestimate"
     return None
 
@@ -905,6 +912,10 @@ def run_program(seed, shard, index, tr, res, bump, only_case=None):
                         # pass 1 measures the centre distance from region.position but the region's circumradius
                         # about the world origin (regions.py MeshVolumeRegion._circumradius, plain-mesh branch)
                         okey = "meshregion.circumradius-about-origin"
+                    if "initial_rotation" in O.spec.params and any(l == "planar_vs_polygonalregion" for _, l, _ in evi):
+                        t2 = go.tree_overlaps(itree, _as_plain_boxes(O, O)[0])
+                        if t2 is None or t2 == bool(ri):
+                            okey = "planar-box.ignores-initial-rotation"
                     viol(case, f"[{cont['kind']}:{type(reg).__name__}] {O.spec.kind} obj.intersects(region) = {bool(ri)} but exact geometry says {ot} exits={[l for _, l, _ in evi]}", desc, okey)
 
 
